@@ -38,7 +38,7 @@ BB_TYPES = ['P2', 'SP2', 'P1', 'SP1a', 'Q5', 'N4a']
 SC_TYPES = ['SC3', 'TC5', 'C5', 'SP1', 'TN6d', 'SQ3p', 'C6', 'P2']
 RESNAMES = ['ALA', 'GLY', 'CYS', 'LYS', 'PHE', 'TRP', 'SER']
 SAFE_PREFIX = ['molecule_0', 'mol_1', 'go', 'prot_A', 'M', 'insulin', 'x_y_z', 'Go9']
-CLASH_PREFIX = ['P', 'SP', 'C5', 'T', '', 'P2', 'S']   # prefixes of ordinary bead types (F-C18-2)
+CLASH_PREFIX = ['P', 'SP', 'C5', 'T', 'P2', 'S', 'Q5']   # prefixes of ordinary bead types (F-C18-2)
 STEPS = [(1, 0, 0), (0, 1, 0), (0, 0, 1), (1, 1, 0), (2, 0, 0), (1, 2, 2), (0, 3, 4), (2, 1, 0), (-1, 0, 0),
          (0, -1, 0), (0, 2, 0), (3, 0, 0), (-2, 0, 1), (0, 0, -1), (2, 3, 6), (1, 1, 1)]
 
